@@ -50,18 +50,17 @@ def judge_c01(rec):
     for kind, detail in rec.mon.ledger_violations[:3]:
         V.append(Violation(kind, f"{detail}; {short(spec)}", f"c01.{kind}"))
     # TASK_PLACEMENT rows: the allocation names instances of exactly one live worker
-    inst = {}  # resource id -> worker name
+    inst = {}  # resource id -> names of the workers that own an instance with that id ('any' may be configured on several)
     for wid, w in rec.world["info"]["workers"].items():
         for r, _q in w["obj"].resources.resources:
-            inst[r.id] = w["name"]
+            inst.setdefault(r.id, set()).add(w["name"])
     for i, p in rows_of(rec):
         if p[1] == "TASK_PLACEMENT":
             alloc = p[8:]
-            workers = set()
-            for j in range(0, len(alloc) - 2, 3):
-                workers.add(inst.get(alloc[j + 1], f"<unknown {alloc[j + 1]}>"))
-            if len(workers) > 1 or any(w.startswith("<unknown") for w in workers):
-                V.append(Violation("allocation_spans_workers", f"row {p}: instances belong to {sorted(workers)}", "c01.allocation_spans_workers"))
+            owners = [inst.get(alloc[j + 1], {f"<unknown {alloc[j + 1]}>"}) for j in range(0, len(alloc) - 2, 3)]
+            common = set.intersection(*owners) if owners else {"-"}
+            if not common or any(w.startswith("<unknown") for o in owners for w in o):
+                V.append(Violation("allocation_spans_workers", f"row {p}: instances belong to {[sorted(o) for o in owners]}", "c01.allocation_spans_workers"))
                 break
     # WORKER_POOL_UTILIZATION rows agree with the shadow ledger at that instant
     pool_total = {}
@@ -778,8 +777,19 @@ def judge_c08(rec):
             import contextlib
             import io
 
+            paths = [path]
+            if len(rec.rows) % 2 == 0:
+                # CSVReader takes a sequence of traces (analyze.py passes several): a companion trace is read first by the same
+                # reader - this run's own trace with its task graphs renamed, i.e. what the same run writes for a workload
+                # whose graphs have other names.  The reconstruction of `path` must not depend on what was read before it.
+                import re
+
+                companion = path[:-4] + "_companion.csv"
+                with open(companion, "w") as f:
+                    f.write(re.sub(r"\bG(\d+)@", r"H\1@", "\n".join(rec.rows)) + "\n")
+                paths = [companion, path]
             with contextlib.redirect_stdout(io.StringIO()):  # the reader prints a line per row type it does not know
-                reader = CSVReader([path])
+                reader = CSVReader(paths)
         except Exception as e:
             cause = e.__cause__ or e
             line = str(e)[:160]
@@ -833,11 +843,12 @@ def judge_c08(rec):
         if len(simr.scheduler_invocations) != len(rec.mon.sched):
             bad("reader_scheduler_invocations", f"{len(simr.scheduler_invocations)} vs {len(rec.mon.sched)}")
     finally:
-        try:
-            os.remove(path)
-        except OSError:
-            pass
-    rec._c08_classes = {"cancel": n_cancel > 0, "miss": n_miss > 0, "finished_graph": n_fin_graph > 0}
+        for f_ in (path, path[:-4] + "_companion.csv"):
+            try:
+                os.remove(f_)
+            except OSError:
+                pass
+    rec._c08_classes = {"cancel": n_cancel > 0, "miss": n_miss > 0, "finished_graph": n_fin_graph > 0, "read_after_another_trace": len(rec.rows) % 2 == 0}
     # de-duplicate by signature
     out, sigs = [], set()
     for v in V:
